@@ -340,7 +340,7 @@ def gen_ser(rng):
             v[0] = rng.choice([-1, -1, -1000000, -2 ** 64])
     elif r < 0.8 and vals[0][1]:               # zero quantity: legal (dropped on the wire)
         vals[0][1][0][1][0][1] = 0
-    return dict(kind='ser', addr=rng.choice(ADDRS), level=level, values=vals, seq=rng.random() < 0.4)
+    return dict(kind='ser', addr=rng.choice(ADDRS), level=level, values=vals, seq=rng.random() < 0.4, bare_int=rng.random() < 0.5)
 
 
 def gen_build_base(rng):
@@ -469,7 +469,10 @@ def render_case(c, r):
               f'{clist([r_out(o) for o in c["outputs"]])} [] [] {cz(r["deposit"])} {a} {cbool(c["merge"])})')
         return f'KAdd {r_cfg(c)} {ac} {r_res(r, lambda l: clist([r_out(o) for o in l]))}'
     if k == 'ser':
-        return f'KSer {cn(c["level"])} {clist([r_val(v) for v in c["values"]])} {cbool("err" in r and r["err"] == "InvalidDataException")}'
+        # a bare negative int assigned as amount is refused by the type check (TypeError): a refusal all the same
+        bare = bool(c.get('seq') and c.get('bare_int') and any(v[0] < 0 and not v[1] for v in c['values']))
+        refused = 'err' in r and (r['err'] == 'InvalidDataException' or (bare and r['err'] in ('TypeError', 'TypeCheckError')))
+        return f'KSer {cn(c["level"])} {clist([r_val(v) for v in c["values"]])} {cbool(refused)}'
     if k == 'build':
         ok = r['ok']
         return (f'KBuild {r_cfg(c)} {cz(ok["fee"])} {clist([r_val(v) for v in ok["ins"]])} [] {cnat(ok["nreq"])} '
